@@ -270,6 +270,42 @@ def part_sweep(ctx, rnd):
     return nontrivial
 
 
+def judge_as_drift(ctx, module, cfg, events, by_id, what, max_rejects=5, timeout=1700):
+    """Judge traces against a contract whose clauses go beyond the letter of the property statement:
+    a rejection is reported as DRIFT (exit code unaffected), never as a VIOLATION.  Returns the number of
+    rejected traces found (judging stops after max_rejects)."""
+    traces = vlib.split_traces(events)
+    nrej = 0
+    while traces and nrej < max_rejects:
+        flat = [e for t in traces for e in t]
+        ctx.nrun += 1
+        tp = os.path.join(ctx.scratch, "judge%d.ndjson" % ctx.nrun)
+        vlib.write_ndjson(tp, flat)
+        r = ctx.tlc(SD, module, cfg, env={"VERIF_TRACE": tp}, workers=1, timeout=timeout, count=False,
+                    must_pass=False, dfs=True)
+        if r.ok:
+            break
+        line, why = vlib.judge_rejection(r, len(flat))
+        if line is None:
+            raise vlib.InfraError("judge %s/%s failed without a rejection point (rc=%d):\n%s"
+                                  % (module, cfg, r.rc, r.tail(60)))
+        n = 0
+        for i, t in enumerate(traces):
+            if n < line <= n + len(t):
+                ev = t[line - n - 1]
+                ctx.drift.append("%s: %s rejected event %d of scenario %s (%s): %s"
+                                 % (what, module, line - n, json.dumps(by_id.get(t[0].get("scn")))[:300], why,
+                                    json.dumps(ev)[:200]))
+                traces.pop(i)
+                nrej += 1
+                break
+            n += len(t)
+        else:
+            raise vlib.InfraError("judge: rejected line %d outside trace file" % line)
+    ctx.traces_validated += len(traces) if nrej < max_rejects else 0
+    return nrej
+
+
 def part_sweepseq(ctx, rnd):
     pkg = "services/keep-balance"
     ctx.tlc(SD, "SweepSeq", "MC_SweepSeq_big.cfg" if ctx.thorough else "MC_SweepSeq.cfg", timeout=1700,
@@ -326,7 +362,21 @@ def part_sweepseq(ctx, rnd):
                 runs[-1][5] = runs[-1][5] or e["failed"]
         if len(runs) >= 2 and any(r[0] != runs[0][0] for r in runs):
             nontrivial.add((tuple(t[0]["stale"]), tuple(tuple(r[:5]) for r in runs)))
-    judge_batched(ctx, "SweepSeqTrace", "Judge_SweepSeq.cfg", events, by_id, batch=3000)
+    # (1) what the C06 statement itself demands, run by run: no non-empty trash/pull list after a failed
+    #     index or collection-page request (SweepContract) - rejections here are violations
+    per_run = []
+    for e in events:
+        if e["ev"] == "reset":
+            scn = e["scn"]
+        elif e["ev"] == "runstart":
+            per_run.append({"ev": "reset", "scn": scn, "part": "sweepseq-run", "run": e["run"]})
+        elif e["ev"] in ("req", "put", "done"):
+            per_run.append(e)
+    judge_batched(ctx, "SweepTrace", "Judge_Sweep.cfg", per_run, by_id, batch=6000)
+    # (2) the sequence protocol (SweepSeqContract) goes beyond the letter of the statement: a rejection is
+    #     reported as DRIFT and never changes the exit code
+    nrej = judge_as_drift(ctx, "SweepSeqTrace", "Judge_SweepSeq.cfg", events, by_id, "sweepseq")
+    ctx.extra["sweepseq_rejections"] = ctx.extra.get("sweepseq_rejections", 0) + nrej
     ctx.evaluations += len(traces)
     ctx.extra["sweepseq_traces"] = len(traces)
     ctx.samples += [{"scenario": by_id.get(t[0].get("scn")), "trace": t[:60]} for t in traces[700:701]]
